@@ -30,7 +30,7 @@ func init() {
 		CaseTimeout: 150 * time.Second,
 		Run:         runC15,
 		Floors: func(tier string) map[string]int {
-			return map[string]int{"drops": 100, "recreates": 100, "drop_seen_by_connected": 20, "drop_seen_by_stalled": 8, "drop_seen_by_restarted": 8, "drop_seen_by_fresh": 8, "primary_restarts_after_drop": 8,
+			return map[string]int{"drops": 100, "recreates": 100, "drop_seen_by_connected": 20, "drop_seen_by_stalled": 8, "drop_seen_by_restarted": 8, "drop_seen_by_fresh": 8, "primary_restarts_after_drop": 8, "empty_recreate_unlinked": 10,
 				"recreate_replicated": 50, "page_size_changed_on_recreate": 10, "drop_with_pending_wal": 5, "tombstones_decoded": 100}
 		},
 	})
@@ -286,6 +286,47 @@ func runC15(c *core.Case) {
 				sit = "connected"
 			}
 			c.Count("drop_seen_by_"+sit, 1)
+		}
+		// the application creates the name again and deletes it before writing
+		// anything (a failed start-up, a temporary file): the file must go away
+		// again and nothing of it may linger on the primary or the replicas
+		if c.Rng.IntN(3) == 0 {
+			before := mon.PosOf(P.Node, "db")
+			f, err := P.Node.OpenOrCreate("db")
+			if err != nil {
+				c.Violate("C15/recreate-failed", "create after drop: "+err.Error(), detail)
+				return
+			}
+			_ = f.Release()
+			hist = append(hist, "create (no write) + unlink")
+			if err := P.Node.Remove("db"); err != nil {
+				healthViolations(c, P.Node, "unlink of an empty recreated database", detail)
+				if !c.Violated() {
+					c.Violate("C15/drop-of-empty-recreated-failed", fmt.Sprintf("the name was created again after the drop and unlinked before any write: unlink failed with %v (file present: %v)", err, mon.FileExists(P.Node, "db", "database")), detail)
+				}
+				return
+			}
+			if after := mon.PosOf(P.Node, "db"); after.TXID < before.TXID || after.Chk != ref.ChecksumFlag {
+				c.Violate("C15/drop-position", fmt.Sprintf("after unlinking the empty recreated database the position is %s (was %s)", after, before), detail)
+				return
+			}
+			if !dropGone(c, P, "db", "primary after create+unlink", detail) {
+				return
+			}
+			led.put("db", mon.PosOf(P.Node, "db"), ref.NewImage(ps))
+			for _, rn := range []*cluster.CNode{R, F} {
+				if !rn.Up {
+					continue
+				}
+				if ok, _, timedOut := cl.WaitConverged(P, rn, []string{"db"}, 5, 30*time.Second); !ok && !timedOut {
+					c.Violate("C15/drop-not-replicated", fmt.Sprintf("%s did not follow the unlink of the empty recreated database (primary %s, it is at %s)", rn.Name, mon.PosOf(P.Node, "db"), mon.PosOf(rn.Node, "db")), detail)
+					return
+				}
+				if !dropGone(c, rn, "db", rn.Name+" after create+unlink", detail) {
+					return
+				}
+			}
+			c.Count("empty_recreate_unlinked", 1)
 		}
 		// next cycle: maybe another page size / mode
 		oldPS, oldWal := ps, wal
